@@ -57,8 +57,8 @@ PROPS = {
         'targets': ['Corr/Dispatch.vo', 'Proto/Run.vo'],
     },
     'C04': {
-        'level_text': "Theorems: C04_window_never_missed - in EVERY schedule of sends by either side and in-order deliveries after a key exchange, with any number of rotations, each message's key ids are inside the receiver's 2x2 window when it arrives (two-direction invariant, induction over the schedule), and that id dynamics is the one of the key-management model (sending writes emit, an accepted message moves the ids as absorb does); mirrored session keys for every pair of distinct DH values; text survives pad/serialise/parse unchanged; (with C05) an accepted message is never accepted again over any history. Every run: random interleavings of sends and FIFO deliveries with ticks and rotations, fragmenting senders whose piece size divides the encoded length exactly, compared step by step with the machine; oracle: per direction the plaintext sequence received equals the sequence sent.",
-        'level_note': 'partial: that the keys behind equal key ids are equal on both sides and that the counters of genuine in-order messages always pass is not one theorem (it follows the same invariant with the exponent values added); that part rests on the correspondence runs and the sequence oracle.',
+        'level_text': "Theorems: C04_fifo_exactly_once_in_order_unchanged - on the key-management model that is compared with the code (real key contexts: key lookup by id, session keys from the exponents, MAC check, per-pair counters, both rotations), from the state right after a key exchange and for EVERY interleaving of sends by either side and in-order deliveries, with any number of messages in flight and any number of rotations: no send fails, no delivery is refused, and received ++ in flight = sent on both directions (nothing lost, doubled, reordered or changed); proved by a two-direction invariant over key ids (C04_window_never_missed), key values (what the receiver will know when each queued message arrives is what the sender used) and counters, by induction over the schedule. Also: that id dynamics is the one of the model (emit / absorb), mirrored session keys for every pair of distinct DH values, text survives pad/serialise/parse unchanged, (with C05) an accepted message is never accepted again. Every run: random interleavings of sends and FIFO deliveries with ticks and rotations, fragmenting senders whose piece size divides the encoded length exactly, compared step by step with the machine; oracle: per direction the plaintext sequence received equals the sequence sent.",
+        'level_note': 'the theorem is about data messages of the key-management layer; that fragmentation, heartbeats, SMP and extra-key traffic in between leave this layer alone is checked by the correspondence runs and the sequence oracle, not by theorem. Schedule condition: a freshly drawn exponent differs from the peer\'s exponents.',
         'trusted': ['the conversation model is symbolic: DH values are exponent ids, shared secrets unordered pairs, keys (secret, role) terms, a MAC verifies iff it was computed with the same key over the same fields (perfect-cryptography idealisation)', 'internal projections (key ids, list lengths, state names) are read through the verif-tagged hook VerifSnapshot'],
         'assumptions': ['DH values drawn are pairwise distinct'],
         'targets': ['Corr/Dispatch.vo', 'Proto/Run.vo'],
